@@ -107,14 +107,20 @@ func (f *impFn) assigned(nodes ...ast.Node) []string {
 				if exprText(s.Fun) == "copy" && len(s.Args) > 0 {
 					set[rootOf(s.Args[0])] = true
 				}
+				if f.p.tg.digest {
+					f.digestAssigned(s, set)
+				}
 				if se, ok := s.Fun.(*ast.SelectorExpr); ok && (se.Sel.Name == "Write" || se.Sel.Name == "Reset") {
 					set[rootOf(se.X)] = true
 				}
 				if se, ok := s.Fun.(*ast.SelectorExpr); ok {
 					if id, ok := se.X.(*ast.Ident); ok {
-						if t := f.lookup(id.Name); t != nil && (t.k == "elem" || (t.k == "bigint" && se.Sel.Name == "Neg")) {
+						if t := f.lookup(id.Name); t != nil && (t.k == "elem" || (t.k == "bigint" && (se.Sel.Name == "Neg" || (se.Sel.Name == "Set" && f.p.tg.grp != "")))) {
 							set[id.Name] = true
 						}
+					}
+					if r := callRecvRoot(s); r != "" && f.isGrpVar(r) {
+						set[r] = true
 					}
 				}
 			}
@@ -282,6 +288,12 @@ func (f *impFn) lhsType(lhs ast.Expr, c *ictx) *ity {
 // a simple statement as `let` lines
 func (f *impFn) simple(s ast.Stmt, prev ast.Stmt, c *ictx) []string {
 	p := f.p
+	f.inLoopNow = c.inLoop
+	if p.tg.digest {
+		if lines, ok := f.digestSimple(s, c); ok {
+			return lines
+		}
+	}
 	switch v := s.(type) {
 	case *ast.AssignStmt:
 		if v.Tok != token.DEFINE && v.Tok != token.ASSIGN {
@@ -418,6 +430,11 @@ func (f *impFn) simple(s ast.Stmt, prev ast.Stmt, c *ictx) []string {
 		if !ok {
 			p.die(s, "expression statement")
 		}
+		if f.p.tg.grp != "" {
+			if lines, ok := f.grpStmt(call, c); ok {
+				return lines
+			}
+		}
 		if se, ok := call.Fun.(*ast.SelectorExpr); ok {
 			if id, ok := se.X.(*ast.Ident); ok {
 				if t := f.lookup(id.Name); t != nil && t.k == "elem" {
@@ -451,6 +468,20 @@ func (f *impFn) simple(s ast.Stmt, prev ast.Stmt, c *ictx) []string {
 					return []string{"let " + lname(id.Name) + " := " + val}
 				}
 				if t := f.lookup(id.Name); t != nil && t.k == "bigint" {
+					if se.Sel.Name == "Set" && len(call.Args) == 1 && f.bigLocal[id.Name] {
+						as, at := f.bigArg(call.Args[0], c)
+						if at.k != "bigint" {
+							p.die(s, "Set argument")
+						}
+						return []string{"let " + lname(id.Name) + " := " + as}
+					}
+					if se.Sel.Name == "Neg" && len(call.Args) == 1 && f.bigLocal[id.Name] {
+						as, at := f.bigArg(call.Args[0], c)
+						if at.k != "bigint" {
+							p.die(s, "Neg argument")
+						}
+						return []string{"let " + lname(id.Name) + " := -" + parenImp(as)}
+					}
 					if se.Sel.Name == "Neg" && len(call.Args) == 1 {
 						if !f.bigFresh[id.Name] {
 							p.die(s, "%s.Neg(…) on a big.Int that is not known to be a fresh object (could be the caller's)", id.Name)
@@ -570,6 +601,14 @@ func (f *impFn) simple(s ast.Stmt, prev ast.Stmt, c *ictx) []string {
 		p.die(s, "call statement %s outside the subset", exprText(call.Fun))
 	case *ast.DeclStmt:
 		gd, ok := v.Decl.(*ast.GenDecl)
+		if ok && gd.Tok == token.CONST && p.tg.grp != "" && len(gd.Specs) == 1 {
+			// `const n = bits.UintSize`: 64 (64-bit platforms, as for uint); an untyped integer constant used as an int
+			vs := gd.Specs[0].(*ast.ValueSpec)
+			if vs.Type == nil && len(vs.Names) == 1 && len(vs.Values) == 1 && exprText(vs.Values[0]) == "bits.UintSize" {
+				f.declare(s, vs.Names[0].Name, tyInt)
+				return []string{"let " + lname(vs.Names[0].Name) + " : Int := 64  -- bits.UintSize on a 64-bit platform"}
+			}
+		}
 		if !ok || gd.Tok != token.VAR {
 			p.die(s, "declaration")
 		}
@@ -581,6 +620,15 @@ func (f *impFn) simple(s ast.Stmt, prev ast.Stmt, c *ictx) []string {
 			}
 			t := p.goType(vs.Type)
 			for _, n := range vs.Names {
+				if t.k == "bigint" { // `var x big.Int`: the function's own object (value 0), may be mutated
+					if _, isPtr := vs.Type.(*ast.StarExpr); isPtr {
+						p.die(s, "var of type *big.Int")
+					}
+					if f.bigLocal == nil {
+						f.bigLocal = map[string]bool{}
+					}
+					f.bigLocal[n.Name] = true
+				}
 				f.declare(s, n.Name, t)
 				out = append(out, "let "+lname(n.Name)+" : "+p.lty(t, true)+" := "+p.zero(t))
 			}
@@ -1022,6 +1070,7 @@ func (f *impFn) rangeStmt(v *ast.RangeStmt, rest []ast.Stmt, k *kont, c *ictx, i
 		f.name, f.lineNo(v), map[bool]string{true: keyName, false: "_, " + valName}[byIndex], exprText(v.X),
 		name, whParams(*u), strings.Join(append([]string{""}, roParams...), " "), sig, resTy, pats, base, pat, pats, body)
 	f.helpers = append(f.helpers, def)
+	f.p.loopInfos = append(f.p.loopInfos, impLoopInfo{name: name, kind: "range", ro: lnames(ro), S: lnames(S)})
 	c.uses.or(*u)
 	f.popTo(depth0)
 	over := parenImp(xs)
@@ -1058,7 +1107,15 @@ func (f *impFn) countingFuel(v *ast.ForStmt, c *ictx) string {
 		d, ok := s.(*ast.IncDecStmt)
 		return ok && ((d.Tok == token.INC && !down) || (d.Tok == token.DEC && down)) && exprText(d.X) == id.Name
 	}
-	if v.Post != nil && isInc(v.Post) {
+	if as, ok := v.Post.(*ast.AssignStmt); ok && f.p.tg.digest && !down && as.Tok == token.ADD_ASSIGN && len(as.Lhs) == 1 && exprText(as.Lhs[0]) == id.Name {
+		// `i += K`, K not assigned in the loop: N - i iterations suffice whenever K ≥ 1 (K ≤ 0: the Go loop does not terminate)
+		incs++
+		for _, a := range f.assigned(v.Body) {
+			for _, b := range f.freeVars(as.Rhs[0]) {
+				other = other || a == b
+			}
+		}
+	} else if v.Post != nil && isInc(v.Post) {
 		incs++
 	} else if v.Post != nil {
 		for _, a := range f.assigned(v.Post) {
@@ -1228,6 +1285,15 @@ func (f *impFn) forStmt(v *ast.ForStmt, rest []ast.Stmt, k *kont, c *ictx, ind s
 	def := fmt.Sprintf("/-- %s, line %d: `%s { … }`; the first argument bounds the number of iterations -/\ndef %s%s%s : %s → %s\n  | 0%s => %s\n  | fuel_ + 1%s =>\n    if %s then\n%s\n    else\n    %s\n",
 		f.name, f.lineNo(v), strings.TrimSpace(condTxt), name, whParams(*u), strings.Join(append([]string{""}, roParams...), " "), sig, resTy, pats, exit, pats, cond, body, exit)
 	f.helpers = append(f.helpers, def)
+	{
+		var ron []string
+		for _, x := range ro {
+			if t := f.lookup(x); t != nil && t.k != "waitgroup" {
+				ron = append(ron, lname(x))
+			}
+		}
+		f.p.loopInfos = append(f.p.loopInfos, impLoopInfo{name: name, kind: "for", ro: ron, S: lnames(S)})
+	}
 	c.uses.or(*u)
 	callTxt := name + whArgs(*u) + roArgs + " " + fuel + " " + strings.Join(lnames(S), " ")
 	// the loop variable of the init statement goes out of scope; the other state variables keep their new values
@@ -1315,6 +1381,9 @@ func (f *impFn) checkFreshLocal(at ast.Node, x string) {
 			}
 			for _, r := range s.Rhs {
 				if strip(r) == x {
+					if f.p.tg.digest && !f.inLoopNow && s.Pos() > at.End() {
+						continue // handed on after its last in-place write (any later in-place write is checked against this alias again)
+					}
 					f.p.die(s, "%s is written in place and aliased here", x)
 				}
 			}
@@ -1335,4 +1404,15 @@ func (f *impFn) checkFreshLocal(at ast.Node, x string) {
 		}
 		return true
 	})
+}
+
+// a *big.Int argument: a pointer variable, or `&x` of a local big.Int value
+func (f *impFn) bigArg(a ast.Expr, c *ictx) (string, *ity) {
+	if u, ok := a.(*ast.UnaryExpr); ok && u.Op == token.AND {
+		if id, ok := u.X.(*ast.Ident); ok && f.bigLocal[id.Name] {
+			return f.expr(id, nil, c)
+		}
+		f.p.die(a, "& of something that is not a local big.Int value")
+	}
+	return f.expr(a, nil, c)
 }
